@@ -15,8 +15,9 @@ sec = '''## 11. Seeded changes: which check catches which
 property and a scratch worktree (nothing from `/verif`): two per property in a first round
 (`C<nn>-<k>`), three more per property in a second and third round in which the agents
 were told which ideas had been used already and asked for subtler ones (`M<nn>-<k>`, the
-property is C<nn>), and two more per property in a fourth (`N<nn>-<k>`) and a fifth round (`P<nn>-<k>`; there the
-agents were told what kind of harness they were up against and to aim at its blind spots). Each was confirmed here in a scratch worktree
+property is C<nn>), and two more per property in a fourth (`N<nn>-<k>`), a fifth and a sixth round (`P<nn>-<k>`,
+`Q<nn>-<k>`; there the agents were told what kind of harness they were up against and to aim
+at its blind spots). Each was confirmed here in a scratch worktree
 (`tools/evalseed.sh`): the patch applies to `/repo` HEAD and builds with and without the
 tag, the 233 baseline tests still pass with it, the agent's demonstration fails with the
 change and passes without it, and the property's quick check reports a violation against
@@ -78,6 +79,14 @@ environment of the server process (trust store); bytes that are not a request; b
 that are not text; containers that grow and shrink by hundreds of elements; the spelling of
 command names in checks that used upper case only; identity confused with address; objects
 swapped at run time (tracer); handler calls outliving the command that made them.
+From the sixth round: who owns the bytes a call returns; objects built without their
+constructor; volume on one connection (gigabytes) and on one value (eight-digit lengths,
+million-character patterns); the same checks with a tracer installed; the second spelling of
+everything (nested requests, inline commands, letter case of a certificate name, line ends
+in a password); certificates at the edge of their validity; API calls out of order (Start
+on a running server); commands of a newer protocol sent in bulk before ordinary ones;
+what a handler may do with the connection's user-data map; a reply that is still unread
+when the server stops; a second client arriving while the first is inside its command.
 
 Sixteen **behaviour-preserving** changes (refactorings, micro-optimisations,
 data-structure swaps, renames and re-worded error texts in redis/proto, the server core,
